@@ -938,6 +938,49 @@ func splitPrecondition(c *core.Ctx, p *load.Program, f *ssa.Function, step ssa.V
 			if !ok || len(a.Succs) != 2 {
 				return false
 			}
+			// the consistency check may live in a private predicate: `if !dimensionsCover(dims, length) { error }`.
+			// What its true result implies is taken from its own returns (product phi == the length handed in).
+			{
+				v, pos := ifi.Cond, true
+				for {
+					if u, ok := v.(*ssa.UnOp); ok && u.Op == token.NOT {
+						v, pos = u.X, !pos
+						continue
+					}
+					break
+				}
+				if call, ok := v.(*ssa.Call); ok {
+					tEdge := a.Succs[0]
+					if !pos {
+						tEdge = a.Succs[1]
+					}
+					if b == tEdge {
+						for _, f := range ssax.CalleeFacts(call, 1, 0) {
+							if f.Op != token.EQL {
+								continue
+							}
+							x, okx := f.X.(*ssax.Synth)
+							y, oky := f.Y.(*ssax.Synth)
+							if !okx || !oky {
+								continue
+							}
+							_, xPhi := ssax.Strip(x.Orig).(*ssa.Phi)
+							_, yPhi := ssax.Strip(y.Orig).(*ssa.Phi)
+							isLen := func(s *ssax.Synth) bool {
+								for _, arg := range call.Call.Args {
+									if loadedField(arg).f == arrLen && ssax.Path(arg) == s.P {
+										return true
+									}
+								}
+								return false
+							}
+							if (xPhi && isLen(y)) || (yPhi && isLen(x)) {
+								return true
+							}
+						}
+					}
+				}
+			}
 			cmp, neg, ok := ssax.AsCmp(ifi.Cond)
 			if !ok {
 				return false
